@@ -39,8 +39,11 @@ def E(i, reads=False, **kw):
 PRELUDE = lambda: {"stages": [F.mk_stage("B", prints="", builtin="alias zq=1")], "capture": False, "unop": set(),
                    "nosentinel": True, "tag": "PRE"}
 
+# regression sequences: the repaired defects (must pass) and the classes that remain
 REPLAYS = {
+    "builtin-lookahead-leak": lambda: [S([F.mk_stage("B", redirs=["1&2", "1t5"], prints="o", builtin="alias")])],
     "herestring-nonfirst": lambda: [S([E(0), E(1, True, frm="h")])],
+    "herestring-reader-gone": lambda: [S([F.mk_stage("N", frm="h")]), S([E(0, frm="h", redirs=["1t31"])], unop=[31])],
     "dup-fd-left-open": lambda: [S([E(0, redirs=["2&1"])]), S([E(0, redirs=["1&2"])])],
     "capture-with-redirect": lambda: [S([E(0, redirs=["1t5"])], cap=True)],
     "builtin-capture-pipes": lambda: [S([F.mk_stage("B", prints="o", builtin="alias")], cap=True)],
@@ -73,7 +76,8 @@ def run_sequences(ctx, res, prop, seqs, label, strace=False, extra_fds=()):
 
     with ThreadPoolExecutor(max_workers=max(2, C.NCPU // 2)) as ex:
         outs = list(ex.map(one, range(len(seqs))))
-    res.count("L2_" + label, len(seqs))
+    # one evaluation = one command run and compared (main steps and their probes)
+    res.count("L2_" + label, sum(len(o.get("full", [1])) for o in outs))
     for ix, out in enumerate(outs):
         if "models" not in out:
             apply_verdict(res, prop, dict(out, full=[], models={False: []}, died=False, texts=[]), known, counters)
@@ -82,12 +86,21 @@ def run_sequences(ctx, res, prop, seqs, label, strace=False, extra_fds=()):
             if s["role"] == "main":
                 res.nontrivial("%s:%s" % (label, F.step_case(s, False, "")))
         apply_verdict(res, prop, out, known, counters)
+        if prop in ("C04", "ALL") or True:
+            fb = F.check_files(out)
+            res.extra["files_compared"] = res.extra.get("files_compared", 0) + len(out.get("files_full", {}))
+            if fb and prop == "C04":
+                if counters["viol"] < 4:
+                    res.violate(kind="oracle", layer="L2", input=out["line"], expected={f: e for f, e, o in fb[:3]},
+                                observed={f: o for f, e, o in fb[:3]}, failing_input=True,
+                                note="final contents of a redirection target differ from create/truncate/append semantics")
+                counters["viol"] += 1
         if strace:
             l3 = out.get("l3", {})
             res.count("L3_strace_" + label, 1)
-            if l3.get(False) and l3.get(True) and not out.get("died"):
+            if l3 and all(l3.values()) and not out.get("died"):
                 if counters["viol"] < 4:
-                    res.violate(kind="correspondence", layer="L3", input=out["line"], as_is=l3[False][:3], repaired=l3[True][:3],
+                    res.violate(kind="correspondence", layer="L3", input=out["line"], as_is=l3[False][:3], repaired={str(k): v[:2] for k, v in l3.items() if k},
                                 failing_input=False, note="syscall sequence of the real binary differs from both model variants")
                 counters["viol"] += 1
         if ix in (0, len(outs) - 1):
@@ -169,3 +182,37 @@ def ulimit_runs(ctx, res, prop):
                 if bad <= 2:
                     res.violate(kind="oracle", layer="L2", input=line, observed=problems, model=mo["tr_shell"], failing_input=True,
                                 note="descriptor exhaustion (ulimit -n %d) before a %d-stage pipeline is not handled cleanly" % (N, n))
+
+
+def capture_fail_runs(ctx, res, prop):
+    """a failing capture pipe() (ulimit -n 7 / 8 before `$(a | b)`): the stage pipes must be released"""
+    hp = os.path.join(ctx.helpers, "hp")
+    known = known_classes(prop)
+    for N in (7, 8):
+        cases = {v: C.case("run", v, "1", "2", "-", "0,1,2", "E:-:-:-|E:-:-:-") for v in ("11101", "11111")}
+        mods = {v: F.parse_model(C.run_model(ctx.model["FDS"], C.write_cases("fds_cf_%d.txt" % os.getpid(), [c]))[0])
+                for v, c in cases.items()}
+        work = tempfile.mkdtemp(prefix="fdscf_")
+        try:
+            F.setup_work(work, ())
+            line = "ulimit -n %d ; %s @ O $(%s @ A.0 | %s @r A.1) ; minfd ; %s @ I.0" % (N, hp, hp, hp, hp)
+            rc, recs = F.run_real(ctx.cicada, line, work)
+            out_txt = open(os.path.join(work, "out.txt"), "rb").read()
+        finally:
+            shutil.rmtree(work, ignore_errors=True)
+        res.count("L2_capture_fail", 1)
+        res.nontrivial("capfail:%d" % N)
+        mf = [int(x) for x in re.findall(rb"(\d+)\n", out_txt)]
+        ran = sorted(k for k in recs if k.startswith("A."))
+        exp = {v: [F.lowest_free(m["shell"])] for v, m in mods.items()}
+        if ran:
+            res.violate(kind="oracle", layer="L2", input=line, observed="stages %s ran although the capture pipe() fails" % ran,
+                        failing_input=True, note="capture pipe failure is not handled")
+        elif mf == exp["11111"]:
+            pass
+        elif mf == exp["11101"] and "capture-pipe-fail" in known:
+            res.known("capture-pipe-fail", "class=capture-pipe-fail what=%s observed=`%s` -> minfd %s (3 expected)" % (
+                known["capture-pipe-fail"].get("what", "")[:100], line.replace(hp, "hp"), mf))
+        else:
+            res.violate(kind="oracle", layer="L2", input=line, observed="minfd %s" % mf, expected="minfd [3]", model=exp,
+                        failing_input=True, note="descriptors leak in the shell when a capture pipe() fails")
